@@ -337,16 +337,10 @@ def run_annotseq_slice(case):
     hi = None if b is None else b - 1
     got = _annotation_set(sub.annotation)
     want_unbounded, cut = model_slice(case["features"], lo, hi)
+    # An omitted bound is unbounded, as documented for Annotation ("the subannotation will include
+    # all features from the start or up to the stop, respectively"): locations that reach beyond the
+    # sequence stay as they are.
     ok = got == want_unbounded
-    if not ok and (a is None or b is None):
-        # An omitted bound may also be read as "the end of the sequence": both readings
-        # agree on every base that belongs to the sequence.  Accept either.
-        lo2 = s0 if a is None else a
-        hi2 = s0 + n - 1 if b is None else b - 1
-        want_seq, _ = model_slice(case["features"], lo2, hi2)
-        want_half1, _ = model_slice(case["features"], lo, hi2)
-        want_half2, _ = model_slice(case["features"], lo2, hi)
-        ok = got in (want_seq, want_half1, want_half2)
     o.check(
         ok,
         "annotseq_slice_keeps_exactly_inside_bases",
